@@ -81,12 +81,6 @@ def decTaskKind : String → Except String TaskKind
   | "init" => pure .init | "test" => pure .test | "teardown" => pure .teardown | "end" => pure .end_
   | k => throw s!"unknown task kind {k}"
 
-structure GTask where
-  kind : TaskKind
-  path : Path
-  succ : List Nat
-  compl : List Nat
-
 def natList (j : Json) : Except String (List Nat) := do (← j.getArr?).toList.mapM (fun d => d.getNat?)
 
 def decGTask (j : Json) : Except String GTask := do
@@ -143,22 +137,6 @@ def decRec (j : Json) : Except String Rec := do
   | "handler-exit" => pure .handlerExit
   | k => throw s!"unknown record {k}"
 
-/-- Re-tabulate the scheduler's function-valued fields (see drivers/Sched.lean). -/
-def normalizeSched (k : Nat) (s : Sched.State Nat) : Sched.State Nat :=
-  let ids := List.range k
-  let aPhase := (ids.map s.phase).toArray
-  let aResult := (ids.map s.result).toArray
-  let aMode := (ids.map s.mode).toArray
-  let aForced := (ids.map s.forced).toArray
-  let aStartAt := (ids.map s.startAt).toArray
-  let aFinishAt := (ids.map s.finishAt).toArray
-  let aStarts := (ids.map s.starts).toArray
-  { s with
-    phase := fun i => aPhase.getD i .remaining, result := fun i => aResult.getD i none,
-    mode := fun i => aMode.getD i none, forced := fun i => aForced.getD i false,
-    startAt := fun i => aStartAt.getD i none, finishAt := fun i => aFinishAt.getD i none,
-    starts := fun i => aStarts.getD i 0 }
-
 def encTaskId (t : TaskId) : Json :=
   Json.mkObj [("kind", Json.str (match t.kind with
     | .sessSetup => "sessSetup" | .sessTeardown => "sessTeardown" | .begin => "begin" | .init => "init"
@@ -168,26 +146,16 @@ def handle (j : Json) : Except String Json := do
   let P ← decProj (← field j "project")
   let gts ← (← (← field (← field j "graph") "tasks").getArr?).toList.mapM decGTask
   let recs ← (← (← field j "trace").getArr?).toList.mapM decRec
-  -- 1. the graph: model vs real
+  -- 1. the graph: model vs real (`RunAccept.graphOk`: same tasks, same dependency lists, distinct ids)
   let mts := buildTasks P
-  let mIds := mts.map (·.id)
-  let idx (t : TaskId) : Option Nat := mIds.findIdx? (· == t)
-  let modelGraph : List (TaskKind × Path × List (Option Nat) × List (Option Nat)) :=
-    mts.map (fun t => (t.id.kind, t.id.path, t.succ.map idx, t.compl.map idx))
-  let realGraph : List (TaskKind × Path × List (Option Nat) × List (Option Nat)) :=
-    gts.map (fun t => (t.kind, t.path, t.succ.map some, t.compl.map some))
-  let graphOk := decide (modelGraph = realGraph)
+  let graphOk := RunAccept.graphOk P gts
   let graphDiff : Json :=
     if graphOk then Json.null
     else Json.mkObj [("model", Json.arr (mts.map (fun t => Json.mkObj [("id", encTaskId t.id),
             ("succ", Json.arr (t.succ.map encTaskId).toArray), ("compl", Json.arr (t.compl.map encTaskId).toArray)])).toArray)]
   -- 2. well-formedness certificate (levels computed here by iterating to a fixpoint)
   let k := gts.length
-  let garr := gts.toArray
-  let g : Sched.Graph Nat :=
-    { tasks := List.range k
-      succDeps := fun t => match garr[t]? with | some x => x.succ | none => []
-      complDeps := fun t => match garr[t]? with | some x => x.compl | none => [] }
+  let g : Sched.Graph Nat := natGraph gts
   let lvlArr : Array Nat := Id.run do
     let mut lv := Array.replicate k 0
     for _ in [0:k+1] do
@@ -197,21 +165,17 @@ def handle (j : Json) : Except String Json := do
         lv := lv.set! t (max (lv.getD t 0) m)
     return lv
   let wf := Sched.checkWF g (fun t => lvlArr.getD t 0)
-  -- 3. replay
+  -- 3. replay (`RunAccept.replay`: the fold of `stepRec` the soundness theorem of Props/C01Accept.lean is about)
   let parents : List (Nat × Nat) ← (match fieldOpt j "threads" with
     | .null => pure []
     | x => do (← x.getArr?).toList.mapM (fun e => do
         let a ← e.getArr?
         pure (← a[0]!.getNat?, ← a[1]!.getNat?)))
-  let ctx : Ctx := { parentOf := fun th => parents.lookup th, P := P, graph := g, tasks := (gts.map (fun t => ({ id := ⟨t.kind, t.path⟩, succ := [], compl := [] } : TaskSpec))).toArray, n := P.nbThreads }
-  let mut st : G := G.init ctx
-  let mut i := 0
-  let mut reject : Option String := none
-  for r in recs do
-    match RunAccept.step ctx st r with
-    | .ok g' => st := { g' with sched := normalizeSched k g'.sched }
-    | .reject why => reject := some why; break
-    i := i + 1
+  let ctx : Ctx := mkCtx P gts parents
+  let outcome := RunAccept.replay ctx recs
+  let st : G := outcome.state
+  let i := outcome.accepted
+  let reject := outcome.reject
   -- 4. the report the writer model builds from the fired events, and the grammar verdicts
   let fired := st.fired.toList
   -- the observation drops times (t = 0); the grammar wants real (non-zero) times: put 1 everywhere
